@@ -82,6 +82,30 @@ func (p *Recorder) Run() {
 	}
 }
 
+// PRecorder: pass-through for parameter streams, logging what it receives in order
+type PRecorder struct {
+	sp.BaseProcess
+	file string
+}
+
+func NewPRecorder(wf *sp.Workflow, name string) *PRecorder {
+	p := &PRecorder{BaseProcess: sp.NewBaseProcess(wf, name), file: "_rec." + name}
+	p.InitInParamPort(p, "in")
+	p.InitOutParamPort(p, "out")
+	wf.AddProc(p)
+	return p
+}
+func (p *PRecorder) Run() {
+	defer p.CloseAllOutPorts()
+	f, _ := os.Create(p.file)
+	defer f.Close()
+	for v := range p.InParamPort("in").Chan {
+		fmt.Fprintln(f, v)
+		f.Sync()
+		p.OutParamPort("out").Send(v)
+	}
+}
+
 func listDir() []string {
 	out := []string{}
 	filepath.Walk(".", func(p string, fi os.FileInfo, err error) error {
@@ -195,6 +219,14 @@ func wfrunMain(descFile string) {
 			procs[n.Name] = c
 		case "recorder":
 			procs[n.Name] = NewRecorder(wf, n.Name)
+		case "precorder":
+			procs[n.Name] = NewPRecorder(wf, n.Name)
+		case "filetoparams":
+			procs[n.Name] = spc.NewFileToParamsReader(wf, n.Name, n.Arg)
+		case "cmdtoparams":
+			procs[n.Name] = spc.NewCommandToParams(wf, n.Name, n.Arg)
+		case "globber":
+			procs[n.Name] = spc.NewFileGlobber(wf, n.Name, n.Paths...)
 		default:
 			fmt.Fprintln(os.Stderr, "wfrun: unknown node kind", n.Kind)
 			os.Exit(3)
